@@ -117,6 +117,7 @@ class LibFn(FnContract):
         ctx = ip.ctx
         args = ctx.fresh('args', Int)
         ctx.assume(z3.And(args >= 0, args < ctx.heap.alloc, ctx.heap.llen(args) >= 0))
+        ctx.ghost['pre_heap'] = (ctx.heap, [args])
         opts = ctx.fresh('options', V)
         ctx.assume(wf_value(ctx.heap, opts))
         ctx.assume(z3.Or(is_none(opts), is_dict(opts)))
